@@ -211,12 +211,21 @@ pub fn search(tier: &str, seed: u64, s: &mut Search) {
         let (x, y) = (rng.range(30, 90), rng.range(30, 90));
         let (sw, sh) = (rng.range(8, 50), rng.range(8, 50));
         let effect = *rng.pick(&["", r#" opacity="0.6""#, r##" filter="url(#blur)""##, r##" clip-path="url(#cp)""##, r##" mask="url(#mk1)""##, r##" filter="url(#shadow)""##]);
-        let node = match i % 5 {
+        let slice_uri = format!("data:image/svg+xml;base64,{}", crate::c17::b64(br##"<svg xmlns="http://www.w3.org/2000/svg" width="20" height="20"><rect width="20" height="20" fill="#08f"/><circle cx="10" cy="10" r="7" fill="#f80"/></svg>"##));
+        let node = match if i % 11 == 10 { 5 } else { i % 5 } {
+            5 => format!(r#"<image id="n" x="{x}" y="{y}" width="{}" height="{}" preserveAspectRatio="{}" xlink:href="{slice_uri}"/>"#, sw + 10, sh + 10, *rng.pick(&["xMidYMid slice", "xMinYMax slice", "xMidYMid meet", "none"])),
             0 => format!(r#"<rect id="n" x="{x}" y="{y}" width="{sw}" height="{sh}" fill="red" stroke="blue" stroke-width="3"/>"#),
             1 => format!(r#"<g id="n"{}{effect}><rect x="{x}" y="{y}" width="{sw}" height="{sh}" fill="green"/><circle cx="{}" cy="{}" r="{}" fill="orange" fill-opacity="0.7"/></g>"#, tf(&mut rng), x + sw, y + sh, sh / 2 + 2),
             2 => format!(r#"<text id="n" x="{x}" y="{y}" font-size="{}" fill="black">Node</text>"#, rng.range(10, 28)),
             3 => format!(r##"<use id="n" xlink:href="#shape" x="{x}" y="{y}"{}/>"##, if rng.chance(1, 2) { tf(&mut rng) } else { String::new() }),
             _ => format!(r#"<path id="n" d="M {x} {y} l {sw} 5 l -{} {sh} z" fill="purple" stroke="black" stroke-width="2" stroke-linejoin="round"/>"#, sw / 2),
+        };
+        // an instance before the node that the converter drops (nothing visible): nothing of it may stay behind
+        // in the absolute transform of its parent and later siblings
+        let dropped = if rng.chance(1, 4) {
+            format!(r##"<use xlink:href="#shape" x="{}" y="{}" {}/>"##, rng.range(20, 90), rng.range(20, 90), r##"filter="url(#missing)""##)
+        } else {
+            String::new()
         };
         let depth = rng.below(4);
         let (mut open, mut close) = (String::new(), String::new());
@@ -225,7 +234,7 @@ pub fn search(tier: &str, seed: u64, s: &mut Search) {
             close += "</g>";
         }
         let svg = format!(
-            r##"<svg xmlns="http://www.w3.org/2000/svg" xmlns:xlink="http://www.w3.org/1999/xlink" width="200" height="200"><defs><rect id="shape" width="30" height="20" fill="teal"/><filter id="blur"><feGaussianBlur stdDeviation="2"/></filter><filter id="shadow" x="-0.5" y="-0.5" width="2" height="2"><feDropShadow dx="5" dy="5" stdDeviation="1"/></filter><clipPath id="cp"><circle cx="70" cy="70" r="45"/></clipPath><mask id="mk1"><rect x="0" y="0" width="300" height="300" fill="white" fill-opacity="0.8"/></mask></defs>{open}{node}{close}</svg>"##
+            r##"<svg xmlns="http://www.w3.org/2000/svg" xmlns:xlink="http://www.w3.org/1999/xlink" width="200" height="200"><defs><rect id="shape" width="30" height="20" fill="teal"/><filter id="blur"><feGaussianBlur stdDeviation="2"/></filter><filter id="shadow" x="-0.5" y="-0.5" width="2" height="2"><feDropShadow dx="5" dy="5" stdDeviation="1"/></filter><clipPath id="cp"><circle cx="70" cy="70" r="45"/></clipPath><mask id="mk1"><rect x="0" y="0" width="300" height="300" fill="white" fill-opacity="0.8"/></mask></defs>{open}{dropped}{node}{close}</svg>"##
         );
         let Ok(Ok(t)) = pan::catch(|| usvg::Tree::from_str(&svg, &o)) else { continue };
         let Some(nd) = t.node_by_id("n") else { continue };
@@ -266,7 +275,7 @@ pub fn search(tier: &str, seed: u64, s: &mut Search) {
             }
         }
         let painted = exm.data().chunks(4).any(|p| p[3] != 0) || cr.data().chunks(4).any(|p| p[3] != 0);
-        let mut kind = ["shape", "group", "text", "use", "path"][(i % 5) as usize];
+        let mut kind = if node.starts_with("<image") { "image" } else { ["shape", "group", "text", "use", "path"][(i % 5) as usize] };
         if kind == "use" && node.contains("transform=") {
             // recorded C12 defect: the absolute transform of a use with a transform attribute applies it twice
             kind = "use-with-transform-attribute";
